@@ -5,7 +5,7 @@ import sys
 import io
 
 
-class Timeout(Exception):
+class Timeout(BaseException):
     pass
 
 
